@@ -80,7 +80,10 @@ Spec == Init2 /\ [][Next2]_vars2
 (***************************************************************************)
 (* The refinement: Level 2 addresses exactly the Level-1 cells.            *)
 (***************************************************************************)
-Agrees(h) == /\ live[h].shape = l2[h].sh
+(* one-element results: the statement lets axes of length one vanish, and the code decides by the size of the
+   storage WINDOW (a one-element view of a stepped range keeps a wider window and therefore its rank) *)
+Agrees(h) == /\ \/ live[h].shape = l2[h].sh
+                \/ Prod(live[h].shape) = 1 /\ Prod(l2[h].sh) = 1
              /\ live[h].cells = L2Cells(l2[h])
 Refines == \A h \in 1..Len(live) : dev[h] = {} => Agrees(h)
 
